@@ -1,4 +1,5 @@
 import ElkVerif.Proofs.Str
+import ElkVerif.Proofs.LastRune
 /-!
 # C20 — String operations agree with code-point, byte and grapheme models
 
@@ -280,6 +281,21 @@ theorem remove_suffix_string (t suf s : Bytes) :
     removeSuffix (t ++ suf) (.str suf) = .ok t ∧
     ((¬ ∃ t', s = t' ++ suf) → removeSuffix s (.str suf) = .ok s) :=
   ⟨by simp [removeSuffix, cutSuffix_append], fun h => by simp [removeSuffix, cutSuffix_not s suf h]⟩
+
+/-- **`-` with a Char**: a string that ends with the char (its UTF-8 encoding) loses exactly that
+char; if the last decoded rune (`DecodeLastRuneInString`) is another one the string is unchanged -/
+theorem remove_suffix_char (t : Bytes) (c : Nat) (hv : ValidScalar c) :
+    removeSuffix (t ++ encodeRune c) (.chr (c : Int)) = .ok t :=
+  removeSuffix_char_append t c hv
+
+theorem remove_suffix_char_other (s : Bytes) (c : Int) (h : ((decodeLastRune s).1 : Int) ≠ c) :
+    removeSuffix s (.chr c) = .ok s :=
+  removeSuffix_char_other s c h
+
+/-- `DecodeLastRuneInString` finds the scalar value a string ends with (any prefix, valid or not) -/
+theorem decode_last_rune (t : Bytes) (c : Nat) (hv : ValidScalar c) :
+    decodeLastRune (t ++ encodeRune c) = (c, (encodeRune c).length) :=
+  decodeLastRune_encode t c hv
 
 /-! ## comparison is bytewise lexicographic -/
 
